@@ -63,6 +63,7 @@ fn main() {
   match args[1].as_str() {
     "probe" => probe::run(&args[2..]),
     "nav" => probe::nav(&args[2..]),
+    "navtime" => probe::navtime(&args[2..]),
     "c20" => c20::run(&o),
     "c07" => c07::run(&o),
     "c02" => c02::run_c02(&o),
